@@ -109,6 +109,9 @@ type LoopScenario struct {
 	Steps     []Step   `json:"steps"`
 	Stop      StopSpec `json:"stop"`
 	RealDb    bool     `json:"realDb,omitempty"` // use the real bbolt persistence
+	// PwmUnreadable: the fan's PWM value cannot be read back at any time (a write-only device): fan2go
+	// has to rely on what it wrote last
+	PwmUnreadable bool `json:"pwmUnreadable,omitempty"`
 }
 
 // Obs is what was observed around one control cycle.
@@ -400,6 +403,9 @@ func RunLoopWith(t *testing.T, sc LoopScenario, given persistence.Persistence) (
 		rig.Curve.FirstEval = make(chan struct{}) // channels are only durably blocking inside their own bubble
 		ctx, cancel := context.WithCancel(context.Background())
 		defer cancel()
+		if sc.PwmUnreadable {
+			rig.Pwm.SetReadMode(ReadEIO)
+		}
 		ctl := controller.NewFanController(pers, rig.Fan, sc.Loop.Build(), tick)
 		done := make(chan error, 1)
 		go func() { done <- ctl.Run(ctx) }()
@@ -525,6 +531,9 @@ func RunLoopWith(t *testing.T, sc LoopScenario, given persistence.Persistence) (
 		}
 		observe(fanMin, fanMax, false)
 		applyFaults := func(s Step) {
+			if sc.PwmUnreadable && s.PwmRead == 0 {
+				s.PwmRead = ReadEIO
+			}
 			rig.Pwm.SetReadMode(s.PwmRead)
 			rig.Pwm.SetWriteMode(s.PwmWrite)
 			rig.Rpm.SetReadMode(s.RpmRead)
